@@ -1385,15 +1385,16 @@ export class AllOfRuntype extends BaseRuntype {
       // intersections of non-object types ("a" & string, A & null) have nothing to project
       return input;
     }
-    let acc = {};
+    const items: unknown[] = [];
     for (const it of this.schemas) {
       const parsed = it.parseAfterValidation(ctx, input);
       if (typeof parsed !== "object") {
         throw new Error("INTERNAL ERROR: AllOfParser: Expected object");
       }
-      acc = { ...acc, ...parsed };
+      items.push(parsed);
     }
-    return acc;
+    // a property declared by several members keeps what each of them keeps of it
+    return deepmerge({}, ...items);
   }
   reportDecodeError(ctx: ReportContext, input: unknown): DecodeError[] {
     const acc = [];
